@@ -497,7 +497,7 @@ func (m *master) run(evPath, knownPath, cxdir, only string, pbOver int) int {
 					if len(r.queue) < 2*m.nworkers {
 						budget = 300
 					}
-					req := &Req{Scenario: r.s.Name, PB: pass, Dev: r.b.Dev, Items: items, Budget: budget, Skip: append([]string{}, r.skip...), VerifyK: 50, Samples: 0}
+					req := &Req{Scenario: r.s.Name, PB: pass, Dev: r.b.Dev, Delay: r.b.Delay, Items: items, Budget: budget, Skip: append([]string{}, r.skip...), VerifyK: 50, Samples: 0}
 					if len(r.samples) < 3 {
 						req.Samples = 2
 					}
@@ -875,12 +875,15 @@ func (m *master) writeEvidence(path string, runs []*scnRun, nviol int) {
 			samples = append(samples, s)
 		}
 		kind := "all interleavings up to the preemption bound (stateless DFS, iterative context bounding)"
+		if r.b.Delay {
+			kind = "all schedules within the deviation bound: every departure from the canonical schedule (running thread first, then ascending thread id) costs one, including choices at points where the running thread blocked (delay-bounded scheduling, iterated 0..bound)"
+		}
 		if r.s.Det {
 			kind = "all operation sequences (harness choices) under the deterministic default schedule"
 		}
 		per = append(per, map[string]any{
 			"scenario": r.s.Name, "doc": r.s.Doc, "kind": kind,
-			"preemption_bound_requested": r.b.PB, "preemption_bound_completed": r.completed, "deviation_bound": r.b.Dev,
+			"bound_mode": map[bool]string{false: "preemptions", true: "schedule deviations (delays)"}[r.b.Delay], "preemption_bound_requested": r.b.PB, "preemption_bound_completed": r.completed, "deviation_bound": r.b.Dev,
 			"executions_last_pass": r.lastStats.Execs, "executions_all_passes": r.total.Execs,
 			"decision_nodes": r.lastStats.Nodes, "scheduling_points": r.lastStats.Points,
 			"distinct_outcomes": len(r.total.Finger), "end_histogram": ends,
@@ -953,7 +956,11 @@ func (m *master) summary(runs []*scnRun) {
 		if r.unbounded {
 			inc += " ALL-INTERLEAVINGS"
 		}
-		fmt.Printf("%-26s pb=%d/%d execs=%d (last pass %d) nodes=%d points=%d outcomes=%d ends=%v maxpts=%d thr=%d%s\n", r.s.Name, r.completed, r.b.PB, r.total.Execs, r.lastStats.Execs, r.lastStats.Nodes, r.lastStats.Points, len(r.total.Finger), r.lastStats.Ends, r.lastStats.MaxPts, r.lastStats.MaxThr, inc)
+		mode := "pb"
+		if r.b.Delay {
+			mode = "db"
+		}
+		fmt.Printf("%-26s %s=%d/%d execs=%d (last pass %d) nodes=%d points=%d outcomes=%d ends=%v maxpts=%d thr=%d%s\n", r.s.Name, mode, r.completed, r.b.PB, r.total.Execs, r.lastStats.Execs, r.lastStats.Nodes, r.lastStats.Points, len(r.total.Finger), r.lastStats.Ends, r.lastStats.MaxPts, r.lastStats.MaxThr, inc)
 	}
 	fmt.Printf("wall %.1fs\n", time.Since(m.start).Seconds())
 }
